@@ -386,8 +386,11 @@ func (p ShortestAlts) To(vid int64) (path []graph.Node, weight float64, unique b
 			} else {
 				next = c[0]
 			}
-			if seen[next] >= 0 {
-				path = path[:seen[next]]
+			if k := seen[next]; k >= 0 {
+				for _, n := range path[k:] {
+					seen[p.indexOf[n.ID()]] = -1
+				}
+				path = path[:k]
 			}
 			seen[next] = len(path)
 			path = append(path, p.nodes[next])
@@ -666,8 +669,11 @@ func (p AllShortest) Between(uid, vid int64) (path []graph.Node, weight float64,
 		} else {
 			next = c[0]
 		}
-		if seen[next] >= 0 {
-			path = path[:seen[next]]
+		if k := seen[next]; k >= 0 {
+			for _, n := range path[k:] {
+				seen[p.indexOf[n.ID()]] = -1
+			}
+			path = path[:k]
 		}
 		seen[next] = len(path)
 		path = append(path, p.nodes[next])
